@@ -378,7 +378,7 @@ func init() {
 				var jobs []Job
 				for role := 0; role <= 1; role++ {
 					for kind := 0; kind < 8; kind++ {
-						for dmg := 0; dmg < 6; dmg++ {
+						for dmg := 0; dmg < 8; dmg++ {
 							for fill := 0; fill <= 1; fill++ {
 								if kind == 0 && dmg == 0 {
 									if role == 0 {
@@ -393,6 +393,10 @@ func init() {
 										continue
 									}
 									jobs = append(jobs, J(sessPkg, "H_C07_quiet", role, kind, dmg, fill, 1+(kind+dmg)%2, 0, 0, 0, 0, hbv))
+									if dmg == 0 || dmg == 1 {
+										// the application called Logout() on a session nobody logged on to
+										jobs = append(jobs, J(sessPkg, "H_C07_quiet", role, kind, dmg, fill, 1+(kind+dmg)%2, 0, 1, 0, 0, hbv))
+									}
 								}
 							}
 						}
@@ -414,7 +418,7 @@ func init() {
 				for role := 0; role <= 1; role++ {
 					for pre := 0; pre <= 1; pre++ {
 						for kind := 0; kind <= 4; kind++ {
-							for dmg := 0; dmg < 6; dmg++ {
+							for dmg := 0; dmg < 8; dmg++ {
 								for extra := 0; extra <= 1; extra++ {
 									if extra == 1 && dmg != 0 {
 										continue
@@ -499,7 +503,10 @@ func init() {
 									if (bc == 1 || ec == 1 || k > 2) && tw == 1 {
 										continue
 									}
-									jobs = append(jobs, J(sessPkg, "H_C10_resend", role, k, bc, ec, tw))
+									jobs = append(jobs, J(sessPkg, "H_C10_resend", role, k, bc, ec, tw, 0))
+									if tw == 0 && bc == 0 && ec == 0 && k <= 2 {
+										jobs = append(jobs, J(sessPkg, "H_C10_resend", role, k, bc, ec, tw, 1))
+									}
 								}
 							}
 						}
@@ -525,7 +532,10 @@ func init() {
 				var jobs []Job
 				for role := 0; role <= 1; role++ {
 					for sc := 0; sc <= 3; sc++ {
-						jobs = append(jobs, J(sessPkg, "H_C15_logout", role, sc))
+						jobs = append(jobs, J(sessPkg, "H_C15_logout", role, sc, 0))
+						if sc != 1 {
+							jobs = append(jobs, J(sessPkg, "H_C15_logout", role, sc, 1))
+						}
 					}
 				}
 				return jobs
@@ -778,6 +788,23 @@ func init() {
 			Assumptions: append(append([]string{}, commonAssumptions...), "the Go race detector reports only real races (no false positives) but only for interleavings that occur in the run; the lockset stage covers all inputs of the role steps but over-approximates concurrency"),
 			Outside:     "races that need more than the listed steps per role to set up; HandlerPool.Remove; the Acceptor/Initiator/Conn goroutine plumbing",
 			Replay:      "engine",
+		}
+	})
+}
+
+func init() {
+	extraSpecs = append(extraSpecs, func(m map[string]*CheckSpec) {
+		m["C12"] = &CheckSpec{
+			ID:           "C12",
+			NoEngineJobs: true,
+			Jobs:         func(tier string) []Job { return nil },
+			Extra:        c12Check,
+			Explanation:  "Translation validation. cmd/fixgen is built from the current tree and run on: source/fix44.xml; generator/testdata/fix.4.4.xml with its duplicate message type removed (quick: its first 12 messages with all components); and K schemas derived from the reference by removing / swapping / renaming / adding fields, toggling 'required', re-typing through the type mapping, removing a message, adding a group member (seeded by VERIF_SEED). For each, an oracle that reads the XML independently of the generator package derives a driver that uses every generated constant, constructor and accessor by the name and Go type the schema implies; generated package + driver are loaded into the symbolic engine and for every container (message, component, header, trailer, group entry) and every field member: set it with a symbolic value on an otherwise minimal container and assert getter == value and wire == exactly the expected tag=value at its schema position (all values, one solver query); the populating constructor with symbolic required arguments yields exactly the required members in schema order; a fully populated container serializes its members in schema order; MsgType/Field constants equal the schema's. A driver that does not compile against the generated package is a violation (names, arity or Go types differ from the schema). Side conditions checked concretely: deterministic output, same files for relative / nested / absolute output directories, duplicate message types and field numbers rejected, tests/fix44 equals the regenerated reference package declaration by declaration.",
+			Rule:         "program = one generated package; case = (container, member, mode) x path",
+			Bounds:       map[string]string{"quick": "2 shipped schemas (large one truncated to 12 messages) + 6 derived; values: strings 2 bytes, ints 10..99, floats/times opaque", "thorough": "full large schema (92 messages) + 24 derived"},
+			Assumptions:  append(append([]string{}, commonAssumptions...), "the oracle's reading of the schema conventions (naming: <NoX> -> XGrp/XEntry, Create<Msg>/New<Component> take the required members, enumerated non-boolean fields are strings, BeginString/BodyLength/MsgType/CheckSum excluded from header/trailer components) is part of the claim"),
+			Outside:      "schemas outside the enumerated family; that the generator terminates or fails cleanly on arbitrary XML; enum constant names",
+			Replay:       "engine",
 		}
 	})
 }
